@@ -14,7 +14,7 @@ worker() {
   i=0
   while read D; do
     i=$((i+1)); [ $((i % N)) -eq $W ] || continue
-    ID=$(echo $D | cut -d/ -f2)
+    ID=$(python3 -c "import json,sys; print(json.load(open(sys.argv[1]+'/meta.json'))['detection']['check'].split()[0])" $D 2>/dev/null || echo $D | cut -d/ -f2)
     git -C $WT checkout -q -- . ; git -C $WT clean -fdq
     if git -C $WT apply $D/patch.diff 2>/dev/null; then
       PYTHONPATH=$WT/src /venv/bin/python $D/demo.py >/dev/null 2>&1; DRC=$?
